@@ -72,6 +72,7 @@ MUTATORS = {
         ("attach without reindex", r"quimb/tensor/gating\.py$", r"^(\s+)tn\.reindex_\(reindex_map\)\s*$", None),
     ],
     "C07": [
+        ("permuted sites sorted, operator not", r"quimb/tensor/circuit/mps\.py$", r"^(\s+)where = tuple\(self\.qubits\.index\(w\) for w in where\)\s*$", r"\1where = tuple(sorted(self.qubits.index(w) for w in where))", r"^local_expectation$"),
         ("copy forgets the lazily created counter", r"quimb/tensor/circuit/core\.py$", r"^(\s+)new\._marginal_storage_size = getattr\(self, \"_marginal_storage_size\", 0\)\s*$", None),
         ("tags into the wrong constructor slot", r"quimb/tensor/circuit/exact\.py$", r"^(\s+)super\(\)\.__init__\(N, psi0, gate_opts, tags=tags, \*\*circuit_opts\)\s*$", r"\1super().__init__(N, psi0, gate_opts, tags, **circuit_opts)"),
         ("drop staleness check", r"quimb/tensor/circuit/(exact|mps)\.py$", r"^(\s+)self\._maybe_init_storage\(\)\s*$", None,
@@ -134,6 +135,7 @@ MUTATORS = {
         ("shortcut direction from option", r"quimb/tensor/tensor_core\.py$", r"^(\s+)compress_absorb = \"right\" if lsize <= rsize else \"left\"\s*$", r'\1compress_absorb = absorb if absorb != "both" else "right"'),
     ],
     "C13": [
+        ("axis lists built from the sorted sites", r"quimb/tensor/tn1d/core\.py$", r"^(\s+)kix = \[self\.site_ind\(i\) for i in where\]\s*$", r"\1srt_ = sorted(where)\n\1kix = [self.site_ind(i) for i in srt_]", r"^partial_trace_to_dense_canonical$"),
         ("drop normalized", r"quimb/tensor/(tnag/core|tn1d/core|tn2d/core|tn3d/core)\.py$", r"^(\s+)normalized=normalized,\s*$", None),
         ("environment stored without its exponent", r"quimb/tensor/tn2d/core\.py$", r"^(\s+)tn_env_i\.exponent = tn\.exponent - exponent0\s*$", None),
         ("sites via a set", r"quimb/tensor/tnag/core\.py$", r"^(\s+)k_inds = tuple\(map\(self\.site_ind, keep\)\)\s*$", r"\1keep = frozenset(keep)\n\1k_inds = tuple(map(self.site_ind, keep))"),
@@ -168,6 +170,7 @@ MUTATORS = {
         ("range not rejected", r"quimb/core\.py$", r"^(\s+)raise ValueError\(f\"Ownership \(\{ri\}, \{rf\}\) not in range \[0-\{D\}\]\.\"\)\s*$", r"\1pass"),
     ],
     "C16": [
+        ("buffer capacity seeded with a share of the size", r"quimb/operator/configcore\.py$", r"^(\s+)buf_size = D\s*$", r"\1buf_size = D // world_size"),
         ("parallel reduction pairs in reverse", r"quimb/core\.py$", r"^(\s+)paired_x = partition_all\(2, x\)\s*$", r"\1paired_x = tuple(partition_all(2, x))[::-1]"),
         ("reduction folds pairs backwards", r"quimb/core\.py$", r"^(\s+)return fn\(\*x\)\s*$", r"\1return fn(*x[::-1])"),
         ("running row counter across blocks", r"quimb/core\.py$", r"^(\s+)ia, ib = divmod\(i, p\)\s*$", r"\1ib += 1"),
